@@ -250,9 +250,12 @@ def run_scenario(seed, shard, idx, tier):
             # is "load phase", where an aborted load must not pass for a
             # document
             count *= 3
-        for _ in range(count):
+        for num in range(count):
+            line = driver.sample_load_phase_line(rng, base) \
+                if num % 2 else None
             plans.append({"kind": "interrupt",
-                          "step": rng.randrange(base.lines), "arg": None})
+                          "step": line if line is not None
+                          else rng.randrange(base.lines), "arg": None})
         # SIGINT placed inside the save: right around the traced line at
         # which each mutating I/O step was issued (in-flight state), not
         # only uniformly over a run that is mostly parsing
